@@ -760,6 +760,10 @@ func BuildDoc(r *kit.Rand, cfg DocConfig) (*Doc, error) {
 				body = kit.XCHexEncode(body, r)
 			}
 			toWrite := bytes.Clone(body)
+			if cfg.WithRejected && len(d.Objs) > 0 && r.Chance(1, 4) {
+				_, err := w.OpenStream(d.Objs[r.Intn(len(d.Objs))].Ref, pdf.Dict{})
+				expectRefused("OpenStream-duplicate", err)
+			}
 			s, err := w.OpenStream(ref, dict, filters...)
 			if err != nil {
 				return d, fmt.Errorf("%s: OpenStream(%v): %w", cfg.String(), names, err)
@@ -770,6 +774,12 @@ func BuildDoc(r *kit.Rand, cfg DocConfig) (*Doc, error) {
 				lateClose.Close()
 				lateClose = nil
 				d.LateCloses++
+			}
+			if cfg.WithRejected && len(d.Objs) > 0 && r.Chance(1, 3) {
+				// (a reference that has been written already: refused, and the earlier
+				// object stays what it is; the stream just opened is not affected)
+				_, err := w.OpenStream(d.Objs[r.Intn(len(d.Objs))].Ref, pdf.Dict{})
+				expectRefused("OpenStream-duplicate-while-open", err)
 			}
 			if cfg.WithRejected && r.Chance(1, 2) {
 				_, err := w.OpenStream(alloc(), pdf.Dict{})
